@@ -17,7 +17,10 @@ mono     a document obtained from a valid one by changing one character (or the 
          levels 0..3; if level k accepts it every level j < k must accept it (acceptance = the constructor returns).
 assign   assignment scripts (enumerated exhaustively, table ASSIGN x modes): a line of level k, a field f and a value v
          of known validity (valid / wrong-type / wrong-syntax / out-of-range, decided by the GFA grammar, only
-         clear-cut values).  The line of level k is obtained in one of these ways (mode):
+         clear-cut values; "no value" of an optional field - sequence, eid, var, GFA1 overlap, GFA2 alignment of
+         E and F - is assigned in each of its spellings: "*", the generic gfapy.Placeholder() which the library
+         itself stores for unspecified fields, and for alignments gfapy.AlignmentPlaceholder(); alignments also as
+         CIGAR / Trace objects).  The line of level k is obtained in one of these ways (mode):
            standalone          gfapy.Line(s, vlevel=k)
            connected           the same line in a small Gfa(vlevel=k)
          and, since the level contract is per Gfa and per Line whatever way the line came into being, lines which a
@@ -179,6 +182,7 @@ ASSIGN = [
         "beg1": ("position_gfa2", POS2),
         "end2": ("position_gfa2", POS2),
         "alignment": ("alignment_gfa2", [(V, "3M"), (V, "*"), (V, "1,2,3"), (V, ("@Alignment", "2M1D", "gfa2")),
+                                         (V, ("@Placeholder",)), (V, ("@AlignmentPlaceholder",)),
                                          (WS, "3X"), (WS, "3Q"), (WS, "M"), (WS, "1,,2"), (WS, ""), (WT, 5)]),
         "eid": ("optional_identifier_gfa2", [(V, "e9"), (V, "*"), (V, ("@Placeholder",)), (WS, "a b"), (WS, ""), (WT, 5)]),
         "sid1": ("oriented_identifier_gfa2", [(V, "C+"), (V, ("@OrientedLine", "C", "-")), (WS, "C"), (WS, "C*"),
@@ -196,7 +200,9 @@ ASSIGN = [
         "s_beg": ("position_gfa2", POS2),
         "f_end": ("position_gfa2", POS2),
         "external": ("oriented_identifier_gfa2", [(V, "r2-"), (WS, "r2"), (WS, ""), (WT, 5)]),
-        "alignment": ("alignment_gfa2", [(V, "2M"), (V, "*"), (V, "1,2"), (WS, "2X"), (WT, 1.5)]),
+        "alignment": ("alignment_gfa2", [(V, "2M"), (V, "*"), (V, "1,2"), (V, ("@Placeholder",)),
+                                         (V, ("@AlignmentPlaceholder",)), (V, ("@Alignment", "1,2", "gfa2")),
+                                         (WS, "2X"), (WT, 1.5)]),
         "xf": ("f", tagvals("f")),
     }, ["external"]),
     ("O1", "gfa2", "O\to1\tA+ B-\txi:i:1", ["S\tA\t4\t*", "S\tB\t4\t*"], {
@@ -639,6 +645,8 @@ def mk(gfapy, spec):
         n = spec[0][1:]
         if n == "Placeholder":
             return gfapy.Placeholder()
+        if n == "AlignmentPlaceholder":
+            return gfapy.AlignmentPlaceholder()
         if n == "LastPos":
             return gfapy.LastPos(spec[1])
         if n == "Alignment":
